@@ -12,7 +12,7 @@ use serde::{Deserialize, Serialize};
 use serde_json::Value;
 
 use super::c13::table;
-use super::c16::{json_mut, mutate_json, mutate_text, nasty, text_mut, JsonMut, TextMut};
+use super::c16::{char_edit, edit_chars, json_mut, mutate_json, mutate_text, nasty, text_mut, CharEdit, JsonMut, TextMut};
 use crate::fw::Outcome;
 use crate::httpd::{Daemon, DaemonCfg, Reply, Transport, UserDef};
 
@@ -28,6 +28,8 @@ pub enum Seg {
     Special(u8),
     /// the n-th nasty string, raw (may be refused by the HTTP layer)
     Raw(u8),
+    /// the valid name with character-level edits, percent-encoded
+    Edit(Vec<CharEdit>),
 }
 
 #[derive(Clone, Debug, Serialize, Deserialize)]
@@ -78,12 +80,13 @@ fn seg_text(s: &Seg, valid: &str) -> String {
         Seg::Valid => valid.to_string(),
         Seg::Nasty(n) => pct(&nasty(*n)),
         Seg::Special(n) => SPECIAL[*n as usize % SPECIAL.len()].to_string(),
+        Seg::Edit(e) => pct(&edit_chars(valid, e)),
         Seg::Raw(n) => nasty(*n).chars().filter(|c| !c.is_whitespace() && !c.is_control()).take(3000).collect(),
     }
 }
 
 pub fn http_in() -> impl Strategy<Value = HttpIn> {
-    let seg = prop_oneof![4 => Just(Seg::Valid), 3 => any::<u8>().prop_map(Seg::Nasty), 4 => any::<u8>().prop_map(Seg::Special), 1 => any::<u8>().prop_map(Seg::Raw)];
+    let seg = prop_oneof![4 => Just(Seg::Valid), 3 => any::<u8>().prop_map(Seg::Nasty), 4 => any::<u8>().prop_map(Seg::Special), 1 => any::<u8>().prop_map(Seg::Raw), 4 => vec(char_edit(), 1..3).prop_map(Seg::Edit)];
     let body = prop_oneof![
         2 => Just(Body::Valid),
         8 => vec(json_mut(), 1..4).prop_map(Body::Json),
@@ -271,7 +274,7 @@ impl Run {
             Some("RoaConfigurationUpdates") => serde_json::json!({"added": [{"asn": 64496, "prefix": "10.0.2.0/24", "max_length": 24, "comment": "x"}, {"asn": 64497, "prefix": "2001:db8::/48"}], "removed": [{"asn": 64496, "prefix": "10.0.1.0/24", "max_length": 24}]}),
             Some("AspaDefinitionUpdates") => serde_json::json!({"add_or_replace": [{"customer": 64498, "providers": [64497, 64499]}], "remove": [64496]}),
             Some("AspaProvidersUpdate") => serde_json::json!({"added": [64499], "removed": [64497]}),
-            Some("BgpSecDefinitionUpdates") => serde_json::json!({"add": [{"asn": 64496, "csr": crate::csr::pool()[0].0.clone()}], "remove": []}),
+            Some("BgpSecDefinitionUpdates") => serde_json::json!({"add": [{"asn": 64496, "csr": crate::csr::pool()[0].0.clone()}], "remove": ["ROUTER-0000FBF0-6E3B8B4F5DCD0F4A5E0A8F3F0B0E0D0C0B0A0908"]}),
             Some("AddChildRequest") => serde_json::json!({"handle": "c9", "resources": {"asn": "AS64501", "ipv4": "10.0.200.0/24", "ipv6": ""}, "id_cert": self.id_ca2}),
             Some("UpdateChildRequest") => serde_json::json!({"id_cert": null, "resources": {"asn": "AS64500", "ipv4": "10.0.128.0/23", "ipv6": ""}, "suspend": null}),
             Some("ImportChild") => serde_json::json!({"name": "c8", "id_cert": self.id_ca2, "resources": {"0": {"resources": {"asn": "", "ipv4": "10.0.201.0/24", "ipv6": ""}, "issued": []}}}),
